@@ -61,3 +61,10 @@ for _pid in ['C05', 'C17', 'C20']:
     PROPS[_pid]['ties'].append(dict(name='TIE-H reads http', vh='reads', model='reads', n=dict(quick=60, thorough=1500), args=dict(all=['-via', 'http', '-monitors', _pid]),
                                     kinds=[_pid], case_head='reads', replayable=False))
     PROPS[_pid]['explanation'] += READS_HTTP_NOTE
+
+# v1 query parameters -> filter (harness/go/vh/v1reads.go): metamorphic tie, both sides through the real router
+PROPS['C20']['ties'].append(dict(name='TIE-H v1 parameters', vh='v1reads', model=None, n=dict(quick=120, thorough=3000), args=dict(all=['-monitors', 'C20']), kinds=['C20'], case_head='v1reads'))
+PROPS['C20']['explanation'] += (' TIE-H v1 parameters: the v1 list endpoints build their filter from query parameters (after, startTime/start_time, endTime/end_time, reference, source, '
+                                'destination, account, metadata[k], address, balance + balanceOperator); on random histories 14 parameter sets per case are listed through v1 (all pages) and '
+                                'compared with the v2 listing of the filter they stand for (transactions, accounts, balances, logs, aggregated balances); no model is involved on this tie, the v2 '
+                                'filters are the ones tied to Ledger/Filter.v. Found and repaired: the v1 `after` parameter was always rejected (29b7753).')
